@@ -34,6 +34,10 @@ def inputs(name):
         t = 0.011
     elif name == "area":
         area = box(-6, -6, 6, 6.5)
+    elif name == "mls":
+        from shapely.geometry import MultiLineString
+
+        base[3] = MultiLineString([[(-4, -4), (-2, 5)], [(-2, 5), (-12, 7)]])
     traces = gpd.GeoDataFrame(attrs, geometry=base, index=idx, crs=("EPSG:3067" if name == "crs_traces_only" else crs))
     areas = gpd.GeoDataFrame(geometry=[area], crs=("EPSG:3067" if name == "crs_area_only" else crs))
     return traces, areas, t
@@ -48,9 +52,10 @@ def call(op, name):
     from fractopo.branches_and_nodes import branches_and_nodes
 
     traces, areas, t = inputs(name)
-    if op == "crop":
-        out = general.crop_to_target_areas(traces, areas, keep_column_data=True)
-        res = {"geoms": digest_geoms(out.geometry.values), "a": [int(x) for x in out["a"]]}
+    if op in ("crop", "crop_allow", "crop_nodata"):
+        # the same crop with each of its flags set the other way: calls that differ in a flag only are different calls
+        out = general.crop_to_target_areas(traces, areas, keep_column_data=(op != "crop_nodata"), allow_multilinestring_input=(op == "crop_allow"))
+        res = {"geoms": digest_geoms(out.geometry.values), "a": [int(x) for x in out["a"]] if "a" in getattr(out, "columns", []) else None}
     elif op == "nodes":
         tr = traces.reset_index(drop=True)
         i, e = general.determine_general_nodes(tr)
